@@ -13,7 +13,7 @@ R-THROW.7       no state write precedes the upstream call in any allocate_block
 """
 import re
 
-from engine import build, fwd, sym, flow
+from engine import linear, build, fwd, sym, flow
 from engine.facts import cls_template, strip_ns, top_term, subterms, tstr
 from rules import common
 
@@ -21,30 +21,70 @@ LEVEL = 'other'
 BLOCK_SOURCES = ('growing_block_allocator', 'fixed_block_allocator', 'detail::temporary_block_allocator')
 
 
+BSTACK = 'detail::memory_block_stack'
+
+
+def _is_stack_call(t, short):
+    return isinstance(t, dict) and t.get('k') == 'call' and t.get('short') == short and cls_template(t.get('cls', '')) == BSTACK
+
+
+def _returning_traces(f, db):
+    return [p for p in fwd.trace(f, db=db, roles={}) if p and p[-1].get('kind') == 'end' and p[-1].get('end') == 'return']
+
+
 def check_pop_sites(run, db):
+    """every block popped off a block stack is, on every path that pops it, the argument of a later deallocate_block call (directly
+    or through locals that merely name it)"""
     n = 0
     for f in db.fns.values():
-        if f.pattern or not f.name.startswith('foonathan::memory'):
+        if f.pattern or not f.name.startswith('foonathan::memory') or cls_template(f.cls or '') == BSTACK:
             continue
-        good = set()
-        for e, t in flow.call_events(f):
-            if t.get('short') == 'deallocate_block':
-                for a in t.get('args', []):
-                    a = sym.strip_casts(a)
-                    if isinstance(a, dict) and a.get('k') == 'call' and a.get('short') == 'pop' \
-                            and cls_template(a.get('cls', '')) == 'detail::memory_block_stack':
-                        good.add(a.get('id'))
-        for e, t in flow.call_events(f):
-            if t.get('short') == 'pop' and cls_template(t.get('cls', '')) == 'detail::memory_block_stack':
-                n += 1
-                inst = '%s: %s [%s]' % (f.display, tstr(t)[:40], db.config)
-                if t.get('id') in good:
-                    run.ok('R-ARENA.pop', inst, t.get('loc', f.loc), 'popped block goes straight to deallocate_block')
-                else:
-                    run.violation('R-ARENA.pop', inst, t.get('loc', f.loc),
-                                  'a block is popped off the arena\'s stack but is not the argument of a deallocate_block call: it is neither tracked nor returned upstream',
-                                  site={'function': strip_ns(f.name).split('<')[0], 'role': 'popped block is released'})
+        pops = {t.get('id'): t for e, t in flow.call_events(f) if _is_stack_call(t, 'pop')}
+        if not pops:
+            continue
+        try:
+            traces = _returning_traces(f, db)
+        except sym.PathLimit as ex:
+            run.broke(str(ex))
+            continue
+        lost = set()
+        seen = set()
+        for p in traces:
+            popped = []
+            for st in p:
+                if st['kind'] != 'ev' or st['e'].get('ev') != 'expr':
+                    continue
+                t0 = top_term(st['e'])
+                if _is_stack_call(t0, 'pop'):
+                    popped.append(t0.get('id'))
+                    seen.add(t0.get('id'))
+                t = st['t']
+                if isinstance(t, dict) and t.get('k') == 'call' and t.get('short') == 'deallocate_block':
+                    for a in t.get('args', []):
+                        for sub in subterms(a):
+                            if _is_stack_call(sub, 'pop') and sub.get('id') in popped:
+                                popped.remove(sub.get('id'))
+            lost.update(popped)
+        for pid, t in sorted(pops.items(), key=lambda kv: str(kv[0])):
+            n += 1
+            inst = '%s: %s [%s]' % (f.display, tstr(t)[:40], db.config)
+            if pid in lost or pid not in seen:
+                run.violation('R-ARENA.pop', inst, t.get('loc', f.loc),
+                              'a block is popped off the arena\'s stack but is not the argument of a deallocate_block call on every path: it is neither tracked nor returned upstream',
+                              site={'function': strip_ns(f.name).split('<')[0], 'role': 'popped block is released'})
+            else:
+                run.ok('R-ARENA.pop', inst, t.get('loc', f.loc), 'popped block goes to deallocate_block on every path')
     return n
+
+
+def _empty_atoms(cond, taken, roles):
+    """[(stack key, is_empty)] facts a branch on `cond` establishes"""
+    out = []
+    for a, tk in fwd.split_condition(cond, taken):
+        a0 = sym.strip_casts(a)
+        if _is_stack_call(a0, 'empty'):
+            out.append((sym.canon(a0.get('recv'), roles), tk))
+    return out
 
 
 def check_arena(run, db):
@@ -87,7 +127,7 @@ def check_arena(run, db):
             inst = '%s [%s]' % (a.display, db.config)
             probs = []
             ups = 0
-            for s in fwd.summarize(a, db=db, exceptional=True, roles={}):
+            for s in fwd.summarize(a, db=db, exceptional=True, roles={}, inline_pred=common.inline_private):
                 up = [fc for fc in s.fwd if fc.kind == 'allocate_block']
                 if s.end == 'return':
                     if up:
@@ -141,13 +181,17 @@ def check_cache(run, db):
         elif f.short == 'take_from_cache' and cached:
             n += 1
             S = [s for s in fwd.summarize(f, db=db, roles={0: 'used'}) if s.end == 'return']
-            good = True
+            good = bool(S)
             for s in S:
                 st = [c for c in s.calls if c[1].get('short') == 'steal_top']
-                emp = ('this.cached_.empty()', True) in s.conds
-                if emp and (st or s.ret != 'false'):
+                cd = dict(s.conds)
+                emp = cd.get('this.cached_.empty()')
+                rv = {'true': True, 'false': False}.get(s.ret, s.ret_truth)
+                if emp is None or rv is None:
                     good = False
-                if not emp and (len(st) != 1 or st[0][0] != '$used.steal_top(this.cached_)' or s.ret != 'true'):
+                elif emp and (st or rv is not False):
+                    good = False
+                elif not emp and (len(st) != 1 or st[0][0] != '$used.steal_top(this.cached_)' or rv is not True):
                     good = False
             if good:
                 run.ok('R-ARENA.cache', inst, f.loc, 'empty cache: false, nothing moved; else the cache top moves to the used stack, true')
@@ -156,32 +200,73 @@ def check_cache(run, db):
                               site={'function': 'detail::memory_arena_cache::take_from_cache', 'role': 'cached block reused first'})
         elif f.short == 'do_shrink_to_fit' and cached:
             n += 1
-            # orientation: cached_ is oldest-on-top; it must be flipped through a local stack before popping into deallocate_block
-            locals_ = {}
-            for e in f.events():
-                if e['ev'] == 'decl':
-                    for v in e['vars']:
-                        if cls_template(v['t']) == 'detail::memory_block_stack':
-                            locals_[v['did']] = v['name']
-            calls = [t for e, t in flow.call_events(f)]
-            fills = [t for t in calls if t.get('short') == 'steal_top' and sym.strip_casts(t['recv']).get('did') in locals_
-                     and sym.canon(t['args'][0]) == 'this.cached_']
-            de = [t for t in calls if t.get('short') == 'deallocate_block']
-            pops = [s for t in de for s in subterms(t) if s.get('short') == 'pop']
-            loops = [sym.canon(b['term']['cond']) for b in f.blocks.values() if b.get('term') and b['term'].get('cls') in ('WhileStmt', 'ForStmt')]
-            probs = []
-            if not pops:
-                probs.append('nothing is returned to the block source')
-            elif any(sym.canon(p.get('recv')) == 'this.cached_' for p in pops):
-                probs.append('blocks are popped straight from the cache, which holds the oldest freed block on top: they would go upstream oldest first')
-            elif not fills or not all(sym.strip_casts(p['recv']).get('did') in locals_ for p in pops):
-                probs.append('the cache is not flipped through a temporary stack before release')
-            if not any('cached_.empty()' in c for c in loops):
-                probs.append('the flip loop is not guarded by cached_.empty()')
+            # orientation: cached_ is oldest-on-top; it must be flipped through a local stack before popping into deallocate_block.
+            # Decided on every returning path with a non-emptiness typestate per stack: a stack is known non-empty after a branch on
+            # !empty() or after something was moved onto it, unknown after something was taken off it.
+            probs = set()
+            try:
+                traces = _returning_traces(f, db)
+            except sym.PathLimit as ex:
+                run.broke(str(ex))
+                continue
+            released = 0
+            for p in traces:
+                state = {}            # stack key -> True (known non-empty) / False (known empty)
+                filled_from = {}      # local stack key -> set of sources
+                infeasible = False
+                pp = set()
+                for st in p:
+                    if st['kind'] == 'br':
+                        for k, is_empty in _empty_atoms(st['raw'], st['taken'], {}):
+                            if k in state and state[k] == is_empty:
+                                infeasible = True     # the branch contradicts what the path has done to that stack
+                            state[k] = not is_empty
+                        if infeasible:
+                            break
+                        continue
+                    if st['kind'] != 'ev':
+                        continue
+                    e = st['e']
+                    if e.get('ev') == 'decl':
+                        for v in e['vars']:
+                            ini = sym.strip_casts(v.get('init')) if isinstance(v.get('init'), dict) else None
+                            if cls_template(v['t']) == BSTACK and (ini is None or (ini.get('k') == 'construct' and not ini.get('args'))):
+                                state['local:' + v['name']] = False     # default constructed: empty
+                        continue
+                    t0 = top_term(e)
+                    if _is_stack_call(t0, 'steal_top'):
+                        dst, src = sym.canon(t0.get('recv'), {}), sym.canon(t0['args'][0], {})
+                        if state.get(src) is not True:
+                            pp.add('a block is taken off %s on a path that has not established that it is non-empty' % src)
+                        state.pop(src, None)
+                        state[dst] = True
+                        filled_from.setdefault(dst, set()).add(src)
+                    elif _is_stack_call(t0, 'pop'):
+                        src = sym.canon(t0.get('recv'), {})
+                        if state.get(src) is not True:
+                            pp.add('a block is popped off %s on a path that has not established that it is non-empty' % src)
+                        state.pop(src, None)
+                        released += 1
+                        if src == 'this.cached_':
+                            pp.add('blocks are popped straight from the cache, which holds the oldest freed block on top: they would go upstream oldest first')
+                        elif not src.startswith('local:') or filled_from.get(src) != {'this.cached_'}:
+                            pp.add('the cache is not flipped through a temporary stack before release')
+                    elif _is_stack_call(t0, 'push'):
+                        state[sym.canon(t0.get('recv'), {})] = True
+                if infeasible:
+                    continue
+                for k in list(state) + list(filled_from):
+                    if (k == 'this.cached_' or k in filled_from) and state.get(k) is not False:
+                        pp.add('%s is not known to be empty when the function returns: cached blocks stay behind' % k)
+                if 'this.cached_' not in state:
+                    pp.add('a path returns without having established that the cache is empty')
+                probs |= pp
+            if not released:
+                probs.add('nothing is returned to the block source')
             if probs:
-                run.violation('R-ARENA.order', inst, f.loc, '; '.join(probs), site={'function': 'detail::memory_arena_cache::do_shrink_to_fit', 'role': 'orientation flip'})
+                run.violation('R-ARENA.order', inst, f.loc, '; '.join(sorted(probs)[:3]), site={'function': 'detail::memory_arena_cache::do_shrink_to_fit', 'role': 'orientation flip'})
             else:
-                run.ok('R-ARENA.order', inst, f.loc, 'cache flipped through a temporary stack, then popped newest first')
+                run.ok('R-ARENA.order', inst, f.loc, 'cache flipped through a temporary stack while non-empty, then popped newest first until empty')
     return n
 
 
@@ -201,7 +286,7 @@ def check_block_sources(run, db):
             site = {'function': ct + '::allocate_block', 'role': 'block unchanged, released with its own terms'}
             probs = []
             acq = None
-            for s in fwd.summarize(a, db=db, exceptional=True, roles={}):
+            for s in fwd.summarize(a, db=db, exceptional=True, roles={}, inline_pred=common.inline_private):
                 ups = [fc for fc in s.fwd if fc.kind in ('allocate_array', 'allocate_block', 'allocate_node')]
                 if s.end == 'return':
                     if len(ups) != 1:
@@ -294,7 +379,9 @@ def check_block_stack(run, db):
             continue
         n += 1
         roles = {0: 'other'} if f.short == 'steal_top' else ({0: 'block'} if f.short == 'push' else {})
-        S = [x for x in fwd.summarize(f, db=db, roles=roles, no_forward=True) if x.end == 'return']
+        S = [x for x in fwd.summarize(f, db=db, roles=roles, no_forward=True,
+                                      inline_pred=lambda a, c, t: cls_template(c.cls or '') == BSTACK and c.key != a.key and c.short not in ('implementation_offset',))
+             if x.end == 'return']
         probs = []
         if len(S) != 1:
             probs.append('%d returning paths' % len(S))
@@ -309,7 +396,11 @@ def check_block_stack(run, db):
             elif f.short == 'pop':
                 if fl != {'this.head_': 'this.head_.prev'}:
                     probs.append('pop leaves %s, expected head_ = head_->prev' % sorted(fl.items()))
-                if x.ret not in ('memory_block{this.head_,(%s + this.head_.usable_size)}' % OFF, 'memory_block{this.head_,(this.head_.usable_size + %s)}' % OFF):
+                rt = sym.strip_casts(x.ret_term) if x.ret_term is not None else None
+                while isinstance(rt, dict) and rt.get('k') != 'construct' and isinstance(rt.get('e'), dict):
+                    rt = sym.strip_casts(rt['e'])
+                ra = rt.get('args', []) if isinstance(rt, dict) and rt.get('k') == 'construct' else []
+                if len(ra) != 2 or sym.canon(ra[0], roles) != 'this.head_' or linear.lin(ra[1], roles) != {'this.head_.usable_size': 1, OFF: 1}:
                     probs.append('pop returns %s, not (header address, usable size + offset)' % x.ret)
             else:
                 cons = [c[0] for c in x.calls if c[1].get('k') == 'construct' and 'memory_block_stack::node' in str(c[1].get('type', ''))]
